@@ -31,6 +31,13 @@ public:
                                                           [this, ifeature, &storage](auto it)
                                                           { this->select_scalar(ifeature, storage, it); });
         }
+        else if constexpr (tcomputer::generated_type == generator_type::structured)
+        {
+            // NB: a structured feature with exactly one value (e.g. the gradient of a 3x3 image) is a scalar feature!
+            this->template iterate<tcomputer::input_rank>(
+                samples, ifeature, this->mapped_original(ifeature), [this, ifeature, &storage](auto it)
+                { this->select_struct(ifeature, storage.reshape(storage.size(), 1, 1, 1), it); });
+        }
     }
 
     ///
